@@ -21,7 +21,15 @@ POOL = {
 }
 CLASSES = ["Drift", "Quadrupole", "Dipole", "Solenoid", "HorizontalCorrector", "VerticalCorrector", "Cavity", "Undulator", "Marker", "BPM",
            "Screen", "Aperture", "CustomTransferMap", "RBend", "TransverseDeflectingCavity", "SpaceChargeKick"]
-CLONE_OFFENDERS = ("Quadrupole", "Screen", "Undulator", "SpaceChargeKick")   # finding F12 (C14/C15): clone() drops or rejects attributes
+_F12_CLASSES = ("Quadrupole", "Screen", "Undulator", "SpaceChargeKick")   # finding F12 (C14/C15): clone() dropped or rejected attributes
+
+
+def _f12_known():
+    return any(f.get("id") == "F12" and f.get("status") == "known" for f in common.load_known_findings("C15") + common.load_known_findings("C14"))
+
+
+# while F12 is listed `known` clones of those classes are unconstrained here; since its repair (b273117) a clone must track like the original
+CLONE_OFFENDERS = _F12_CLASSES if _f12_known() else ()
 
 
 def leaves(spec, path=()):
@@ -142,6 +150,14 @@ def gen_targeted_cases(rng):
         seq = [0, 1, 0, 2, 0] + ([3, 4, 3, 0] if not particle_only else [])
         ops = []
         has_diag = cls in ("Screen", "BPM")
+        if has_diag:
+            # a beam that was lost completely upstream (all survival probabilities 0) after a live one: the read-out must not
+            # keep showing the previous shot
+            dead = copy.deepcopy(b0)
+            dead["survival"] = [0.0 for _ in dead["survival"]]
+            beams.append(dead)
+            di = len(beams) - 1
+            seq = seq[:3] + [di, 0, di] + seq[3:]
         for bi in seq:
             ops.append(["track", bi])
             if has_diag:
@@ -149,6 +165,22 @@ def gen_targeted_cases(rng):
         ops.append(["etrack", [es.index(spec)], 0])
         ops.append(["track", 1])
         out.append({"lattice": lat, "beams": beams, "ops": ops, "targeted": cls})
+    # elements that share a name but not their parameters: clones (and tracks) must keep them apart
+    for cls in ("Quadrupole", "Drift", "Dipole", "HorizontalCorrector"):
+        a = realgen.gen_element(rng, cls=cls, name="dup", method="cheetah")
+        b = realgen.gen_element(rng, cls=cls, name="dup", method="cheetah")
+        for k in b["kw"]:
+            if k in ("length",):
+                b["kw"][k] = round(a["kw"][k] * 1.5 + 0.1, 4)
+            if k in ("k1", "angle"):
+                b["kw"][k] = round(-1.3 * a["kw"][k] + 0.2, 4)
+        d = realgen.gen_element(rng, cls="Drift", name="mid", method="cheetah")
+        lat = {"cls": "Segment", "name": "t", "es": [a, d, b] if rng.random() < 0.5 else [a, {"cls": "Segment", "name": "inner", "es": [d, b]}]}
+        b0 = realgen.gen_particle_beam(rng, n=4, energy=1e8)
+        b0["charges"] = [1e-12 for _ in b0["charges"]]
+        q0 = realgen.gen_parameter_beam(rng, energy=1e8)
+        out.append({"lattice": lat, "beams": [b0, q0], "ops": [["track", 0], ["clone_track", 0], ["clone_track", 1], ["track", 1], ["clone_track", 0]],
+                    "targeted": "duplicate_names_" + cls})
     return out
 
 
@@ -371,6 +403,14 @@ def execute(case):
                     problems.append({"op": k, "what": "track differs from a freshly built lattice with the same parameter values"})
             elif o[0] == "clone_track" and not has_offender:
                 obs.append(cls_id(h))
+                # oracle: the clone tracks like a freshly built lattice with the current values
+                try:
+                    fresh = build_fresh(live_spec(seg, lat))
+                    hf = hash_beam(fresh.track(realgen.build_beam(case["beams"][bi])))
+                except Exception as ex:
+                    hf = "exc:" + type(ex).__name__
+                if hf != h:
+                    problems.append({"op": k, "what": "a clone tracks differently from a freshly built lattice with the same parameter values"})
             else:
                 obs.append(0)      # result not constrained here (optimised copy: C08; clone of an F12 class: C15)
         elif o[0] == "etrack":
